@@ -302,6 +302,12 @@ def build_streams(ctx):
     batches += [f"cp {0x110000} {B}", f"cp {(1 << 32) - B} {B}", f"cp {0x7FFFF000} {2 * B}"]
     batches += [f"cp {rng.randrange(0x110000, (1 << 32) - B)} {B}" for _ in range(4 if quick else 64)]
     batches += ["decpre - 0", "decpre - 1", "decpre - 2"] + [f"decpre {b:02x} 2" for b in range(256)]
+    n4 = 0
+    if not quick:
+        for a in (0x80, 0xBF, 0xC2, 0xDF, 0xE0, 0xED, 0xEF, 0xF0, 0xF4, 0xF7, 0xF8, 0xFF):
+            for b in range(256):
+                batches.append(f"decpre {a:02x}{b:02x} 2")
+                n4 += 1
     npre = 96 if quick else 2000
     for _ in range(npre):
         pre = rand_utf8ish(rng)[:rng.randrange(2, 7)]
@@ -334,7 +340,7 @@ def build_streams(ctx):
         f"TEST of the model/code tie (not the proof): all 1,114,112 code points in {0x110000 // B} batches of {B} (+ batches above U+10FFFF) "
         "through toString/fromString/isValid/length, compared by count + FNV-1a digest with the model and with Python's utf-8 codec; "
         "decoders on exactly sized heap buffers: every byte string of length 0,1,2 as single calls and every 3-byte string "
-        f"(256 batches of 65536) + {npre} sampled prefixes of 2..6 bytes extended by all 1-2 byte suffixes + random (truncated / "
+        f"(256 batches of 65536){'' if quick else f' + every 4-byte string behind 12 lead bytes ({n4} batches)'} + {npre} sampled prefixes of 2..6 bytes extended by all 1-2 byte suffixes + random (truncated / "
         "bad-continuation / stray-byte) strings; fromBase64 on every string of 0..4 symbols over alphabet+{=,0x80,0xFF,{} "
         "(68^4 = 21,381,376 strings of length 4, in 68 batches) + RFC 4648 encodings of random strings and mutations of them; fromHex of all "
         f"1-byte{'' if quick else ' and 2-byte'} strings + random; {nint} boundary (0, +-1, min, max, 10^k+-1, 2^k+-1) and random integers over the four widths, "
@@ -378,6 +384,44 @@ def expand(line):
     return [line]
 
 
+def minimise_args(d, harness, driver, budget=200):
+    """argument minimisation after ddmin: drop bytes / list elements of the failing line while the same kind of
+    disagreement persists (so that the replay names a small input)"""
+    line = d.hist[d.idx]
+    t = line.split()
+    if t[0] not in ("dec", "b64", "hex", "u32s", "pi32", "pu32", "pi64", "pu64") or len(t) != 2:
+        return d
+    sep = "," if t[0] == "u32s" else None
+    items = t[1].split(",") if sep else [t[1][i:i + 2] for i in range(0, len(t[1]), 2)] if t[1] != "-" else []
+    if t[0] == "b64":                         # base64 input keeps its length class: minimise over 4-symbol groups
+        items = ["".join(items[i:i + 4]) for i in range(0, len(items), 4)]
+    state = {"best": d, "calls": 0}
+
+    def fails(cand):
+        state["calls"] += 1
+        if state["calls"] > budget:
+            return False
+        arg = (",".join(cand) if sep else "".join(cand)) or "-"
+        ds, _, _, _, _ = C.run_batch(harness, driver, [[f"{t[0]} {arg}"]], reference, C.default_eq, 60)
+        if ds and ds[0].kind == d.kind:
+            state["best"] = ds[0]
+            return True
+        return False
+
+    # small contiguous windows first (a decoder failure usually sits in one short sequence), then ddmin
+    found = None
+    for w in range(1, min(4, len(items) - 1) + 1):
+        for i in range(0, len(items) - w + 1):
+            if fails(items[i:i + w]):
+                found = items[i:i + w]
+                break
+        if found or state["calls"] > budget:
+            break
+    C.ddmin(found or items, fails)
+    best = state["best"]
+    return best
+
+
 def run_streams(ctx, harness, driver, batches, singles, corpus):
     rng = ctx.rng
     INNER["calls"] = 0
@@ -404,8 +448,12 @@ def run_streams(ctx, harness, driver, batches, singles, corpus):
         lines = expand(d.hist[d.idx])
         dd = C.differential(ctx, harness, driver, chunked(lines, 256), reference, C.default_eq, timeout=600)
         located += dd if dd else [d]
-    C.report_diffs(ctx, located, harness, driver, reference, C.default_eq, "codec-batches")
-    C.report_diffs(ctx, d2, harness, driver, reference, C.default_eq, "codec-calls")
+    for name, ds in (("codec-batches", located), ("codec-calls", d2)):
+        small = []
+        for d in ds[:3]:
+            d = C.shrink_diff(d, harness, driver, reference, C.default_eq)
+            small.append(minimise_args(d, harness, driver))
+        C.report_diffs(ctx, small, harness, driver, reference, C.default_eq, name)
 
 
 def check(ctx):
